@@ -31,5 +31,5 @@ def jobs(tier):
                      bounds='64-bit symbolic ranges, %d held + 1 op%s' % (n, ' + 1 probe' if probe else '')))
     # wake-up half: waiters on a conflicting range proceed after unlock (no lost wake-up = no deadlock at the end of the run)
     J.append(ksjob('wake_2t', 'C18/h_wake.cpp', 2, 6, ['FORCE_CONFLICT'], desc='2 lockers with overlapping ranges: the second waits and is woken by the unlock', shims=['rbtree.c'], timeout=900, unwind=4))
-    if not q: J.append(ksjob('wake_3t', 'C18/h_wake.cpp', 3, 10, ['FORCE_CONFLICT'], desc='3 lockers, symbolic ranges (0 and 1 overlap)', shims=['rbtree.c'], timeout=5000, unwind=5, mem_gb=30))
+    if os.environ.get('VERIF_EXPERIMENTAL'): J.append(ksjob('wake_3t', 'C18/h_wake.cpp', 3, 10, ['FORCE_CONFLICT'], desc='3 lockers, symbolic ranges (0 and 1 overlap)', shims=['rbtree.c'], timeout=5000, unwind=5, mem_gb=30))
     return J
